@@ -19,7 +19,7 @@ import (
 	"verif/internal/model"
 )
 
-const rule = "cases: Go maps of 0..40 pairs with key/value lengths from {0,1,2,5,254,255} and uniform 0..255 over the full byte alphabet (boosted '=', ';', NUL, >=0x80), maps whose encoded size lands on 65535-3..65535+3, strings of 256..300 bytes; parser inputs: model encodings with structure-aware mutations (size field +-k, junk inside the declared size, truncation, delimiter flips, duplicated pairs, appended bytes) and arbitrary bytes. Oracle: independent strict mapping codec (internal/model). Non-trivial: map with >= 2 pairs or an edge-length string (0,1,254,255 bytes), or a parser input of >= 4 bytes that is not an unmodified encoding; distinct by hash of the sorted pair list / input bytes."
+const rule = "cases: Go maps of 0..40 pairs with key/value lengths from {0,1,2,5,254,255} and uniform 0..255 over the full byte alphabet (boosted '=', ';', NUL, >=0x80), maps of 4..60 minimal pairs (one-byte or empty key, empty or one-byte value), maps whose encoded size lands on 65535-3..65535+3, strings of 256..300 bytes; parser inputs: model encodings with structure-aware mutations (size field +-k, junk inside the declared size, truncation, delimiter flips, duplicated pairs, appended bytes) and arbitrary bytes. Oracle: independent strict mapping codec (internal/model). Non-trivial: map with >= 2 pairs or an edge-length string (0,1,254,255 bytes), or a parser input of >= 4 bytes that is not an unmodified encoding; distinct by hash of the sorted pair list / input bytes."
 
 func TestMain(m *testing.M) { ev.Main(m, "C11", rule) }
 
@@ -275,6 +275,18 @@ func genMap(t *rapid.T) MapCase {
 			add(long, genStrBytes(t, "v"))
 		} else {
 			add(genStrBytes(t, "k"), long)
+		}
+	case kind == 3 && rapid.Bool().Draw(t, "tiny"): // many minimal pairs: 1-byte keys (the empty key too), empty or 1-byte values
+		n := rapid.IntRange(4, 60).Draw(t, "ntiny")
+		for i := 0; i < n; i++ {
+			var k, v []byte
+			if rapid.IntRange(0, 19).Draw(t, "emptykey") != 0 {
+				k = []byte{rapid.Byte().Draw(t, "k1")}
+			}
+			if rapid.IntRange(0, 3).Draw(t, "hasv") == 0 {
+				v = []byte{rapid.Byte().Draw(t, "v1")}
+			}
+			add(k, v)
 		}
 	default:
 		n := rapid.IntRange(0, 6).Draw(t, "n")
